@@ -689,3 +689,112 @@ Proof.
       assert (NPb : NoDup (pfx wb)) by now rewrite B1. assert (NKb : NoDup (keys wb)) by now rewrite B2.
       exfalso. exact (post_exc _ _ _ _ _ _ (process_eod_spec eod v4 v6 ks wb NPb NKb) Hp).
 Qed.
+
+(* ---------- the tables stay duplicate-free (the invariant the undo argument needs) ---------- *)
+Definition ND (w w' : world) : Prop := NoDup (pfx w) /\ NoDup (keys w) -> NoDup (pfx w') /\ NoDup (keys w').
+Lemma ND_refl w : ND w w. Proof. unfold ND; auto. Qed.
+Lemma ND_trans a b c : ND a b -> ND b c -> ND a c. Proof. unfold ND; auto. Qed.
+Lemma L_ND a b : L a b -> ND a b. Proof. intros (H1 & H2 & _). unfold ND. now rewrite H1, H2. Qed.
+Lemma M_ND a b : M a b -> ND a b. Proof. intros (H1 & H2 & _). unfold ND. now rewrite H1, H2. Qed.
+
+Lemma eod_post_NoDup p v4 v6 ks w r w' :
+  NoDup (pfx w) -> NoDup (keys w) -> eod_post p v4 v6 ks w r w' -> NoDup (pfx w') /\ NoDup (keys w').
+Proof.
+  intros NP NK [(_ & _ & (H1 & H2 & _))|(_ & [(_ & A1 & A2 & H1 & H2 & _)|(_ & _ & P1 & P2 & _)])].
+  - now rewrite H1, H2.
+  - rewrite H1, H2. split.
+    + apply (applies_NoDup prec prec_eqb prec_of_pdu); [|exact A1].
+      unfold upd_tab_p. destruct (resetting (sk w)); [now apply NoDup_oth_p|exact NP].
+    + apply (applies_NoDup krec krec_eqb krec_of_pdu); [|exact A2].
+      unfold upd_tab_k. destruct (resetting (sk w)); [now apply NoDup_oth_k|exact NK].
+  - split; eapply Permutation_NoDup; try (apply Permutation_sym; eassumption); assumption.
+Qed.
+
+Lemma rtr_sync_ND fuel w : rel ND (rtr_sync fuel) w.
+Proof.
+  unfold rel. pose proof (rtr_sync_struct fuel w) as HS. unfold post in HS.
+  assert (Hpe : forall cr w1 res, sync_reached_eod fuel w cr w1 res ->
+            exists eod v4 v6 ks wb, process_eod eod v4 v6 ks wb = res /\ pfx wb = pfx w /\ keys wb = keys w).
+  { intros cr w1 res (Hsf & Hty & Hok & (wa & wb & eod & v4 & v6 & ks & Hc & Hr & Hte & Hp)).
+    destruct (at_eod _ _ _ _ _ _ _ _ _ _ Hsf Hok Hc Hr) as ((M1 & M2 & _) & _).
+    exists eod, v4, v6, ks, wb. auto. }
+  destruct (rtr_sync fuel w) as [r w'|e w'].
+  - destruct HS as [[_ HM]|(cr & w1 & r0 & w3 & Hre & Hcase)]; [now apply M_ND|].
+    destruct (Hpe _ _ _ Hre) as (eod & v4 & v6 & ks & wb & Hp & B1 & B2).
+    intros [NP NK].
+    assert (NPb : NoDup (pfx wb)) by now rewrite B1. assert (NKb : NoDup (keys wb)) by now rewrite B2.
+    pose proof (post_ok _ _ _ _ _ _ (process_eod_spec eod v4 v6 ks wb NPb NKb) Hp) as HE.
+    pose proof (eod_post_NoDup _ _ _ _ _ _ _ NPb NKb HE) as HN.
+    pose proof (clear_resetting_facts w3) as (F1 & F2 & _).
+    destruct Hcase as [(_ & _ & ->)|(_ & _ & ->)]; unfold sync_done; cbn [pfx keys]; now rewrite F1, F2.
+  - destruct HS as [HM|(cr & w1 & Hre)]; [now apply M_ND|].
+    destruct (Hpe _ _ _ Hre) as (eod & v4 & v6 & ks & wb & Hp & B1 & B2).
+    intros [NP NK].
+    assert (NPb : NoDup (pfx wb)) by now rewrite B1. assert (NKb : NoDup (keys wb)) by now rewrite B2.
+    exfalso. exact (post_exc _ _ _ _ _ _ (process_eod_spec eod v4 v6 ks wb NPb NKb) Hp).
+Qed.
+
+Lemma src_remove_all_ND w : rel ND src_remove_all w.
+Proof.
+  unfold rel. destruct (src_remove_all_spec w) as (w1 & E & E1 & E2 & _). rewrite E. unfold ND. rewrite E1, E2.
+  intros [A B]. split; [now apply NoDup_oth_p|now apply NoDup_oth_k].
+Qed.
+
+Notation relND := (rel ND).
+Ltac nfin := unfold ND; cbn [sk pfx keys]; try (intros HND; exact HND).
+Ltac nprim := unfold rel; unfold_prims; nfin.
+Ltac nlem :=
+  match goal with
+  | |- relND (change_state _) _ => apply (rel_mono L ND _ _ L_ND), (okrel_rel L), change_state_okL
+  | |- relND (send_serial_query) _ => apply (rel_mono L ND _ _ L_ND), (okrel_rel L), send_serial_query_okL
+  | |- relND (send_reset_query) _ => apply (rel_mono L ND _ _ L_ND), (okrel_rel L), send_reset_query_okL
+  | |- relND (tr_open) _ => apply (rel_mono L ND _ _ L_ND), tr_open_L
+  | |- relND (wait_for_sync) _ => apply (rel_mono L ND _ _ L_ND), wait_for_sync_L
+  | |- relND (rtr_sync _) _ => apply rtr_sync_ND
+  | |- relND (src_remove_all) _ => apply src_remove_all_ND
+  end.
+Ltac nstep :=
+  match goal with
+  | |- relND (ret _) _ => apply (rel_ret ND ND_refl)
+  | |- relND (bind get_sk _) ?w => apply (rel_bind ND ND_trans); [nprim | let H := fresh "Heq" in intros ? ? H; unfold_prims_in H; injection H as <- <-]
+  | |- relND (bind get_now _) ?w => apply (rel_bind ND ND_trans); [nprim | let H := fresh "Heq" in intros ? ? H; unfold_prims_in H; injection H as <- <-]
+  | |- relND (bind _ _) ?w => apply (rel_bind ND ND_trans); [ | intros ? ? ?Heq]
+  | |- relND (if ?c then _ else _) _ => destruct c eqn:?
+  | |- relND (match ?x with _ => _ end) _ => destruct x eqn:?
+  | |- relND ((fun _ => _) _) _ => cbv beta
+  | |- relND (let _ := _ in _) _ => cbv zeta
+  end.
+
+Lemma purge_outdated_ND w : relND purge_outdated w.
+Proof. unfold purge_outdated. repeat nstep; try nlem; try nprim. Qed.
+Lemma fsm_step_ND fuel w : relND (fsm_step fuel) w.
+Proof. unfold fsm_step. repeat nstep; try nlem; try apply purge_outdated_ND; try (nprim; fail). Qed.
+Lemma rtr_stop_ND w : relND rtr_stop w.
+Proof. unfold rtr_stop. repeat nstep; try nlem; try (nprim; fail). Qed.
+
+Theorem run_fsm_ND n fuel : forall w, ND w (run_fsm n fuel w).
+Proof.
+  induction n as [|n IH]; intros w; cbn [run_fsm]; [apply ND_refl|].
+  pose proof (fsm_step_ND fuel w) as H. unfold rel in H.
+  destruct (fsm_step fuel w) as [[] w'|[why|] w'].
+  - eapply ND_trans; [exact H|apply IH].
+  - exact H.
+  - assert (Hs : relND (mdo _ <- rtr_stop; mdo _ <- dump 1; modify_sk (fun s => upd_st s c_RTR_CONNECTING)) w').
+    { repeat nstep; try apply rtr_stop_ND; try (nprim; fail). }
+    unfold rel in Hs.
+    destruct ((mdo _ <- rtr_stop; mdo _ <- dump 1; modify_sk (fun s => upd_st s c_RTR_CONNECTING)) w') as [[] w2|e w2].
+    + eapply ND_trans; [exact H|]. eapply ND_trans; [exact Hs|apply IH].
+    + eapply ND_trans; eauto.
+Qed.
+
+(* the purge fallback, should an undo ever fail (it cannot in this model, which has no allocation failure) *)
+Lemma purge_after_failed_undo_spec w :
+  exists w', purge_after_failed_undo w = Ok tt w' /\
+             pfx w' = oth_p (pfx w) /\ keys w' = oth_k (keys w) /\ own_p (pfx w') = [] /\ own_k (keys w') = [] /\
+             req_sess (sk w') = true.
+Proof.
+  destruct (src_remove_all_spec w) as (w1 & E & E1 & E2 & E3).
+  unfold purge_after_failed_undo, bind, modify_sk, get_sk, set_sk. unfold bind. rewrite E.
+  eexists. split; [reflexivity|]. cbn [pfx keys sk req_sess upd_req]. rewrite E1, E2.
+  unfold own_p, oth_p, own_k, oth_k. rewrite !own_oth_nil. auto.
+Qed.
